@@ -410,6 +410,282 @@ def frame_selftest(repo, verbose=True):
     return bad
 
 
+# ---- symbolic differential test: every path of the SYMBOLIC execution against CPython on a small domain -------------------
+# Each function is executed once symbolically (arguments: z3 integers in 0..3, so that they alias in all ways); for EVERY
+# concrete argument tuple of the domain (a) at least one explored path must have a path condition that holds - a lost path
+# is how an encoder makes obligations hold vacuously - and (b) on every such path the symbolic result, evaluated at the
+# tuple, must equal what CPython computes.  `Unsupported` on a path only means "nothing claimed" for the tuples it covers.
+SYM_CASES = {
+    'sets': '''
+def f(a, b, c):
+    s = {a, b, c}
+    t = frozenset([a, b])
+    return (len(s), t == frozenset([b, c]), a in {b, c}, len(s - {a}), len(s & {b}), len({a} | {c}), len(set([a, a, b])), t == {a, b})
+''',
+    'dict-keys': '''
+def f(a, b, c):
+    d = {a: 1}
+    d[b] = 2
+    e = {(a, b): 5}
+    return (len(d), d.get(c, 0), d[a], (b, a) in e, e.get((c, b), -1), c in d)
+''',
+    'lists-and-tuples': '''
+def f(a, b, c):
+    l = [a, b, c]
+    return (l.count(a), l.index(c), (a, b) == (b, a), max(l), min(a, b), sum(l), [a, b] == [b, c], (a, b, c)[1:] == (b, c), c in l[:2], l[-1])
+''',
+    'list-mutation': '''
+def f(a, b, c):
+    l = [a, b, c, a]
+    l.remove(b)
+    m = list(l)
+    m.append(c)
+    return (len(l), l[0], l[-1], b in l, m.count(c), l == m[:3])
+''',
+    'frozenset-keys': '''
+def f(a, b, c):
+    d = {}
+    d[frozenset([a, b])] = 1
+    k = frozenset([b, c])
+    hit = k in d
+    d[k] = 2
+    return (hit, len(d), d[frozenset([b, a])])
+''',
+    'sorting-and-comprehensions': '''
+def f(a, b, c):
+    l = [a, b, c]
+    return (sorted(l)[0], sorted(l, reverse=True)[0], len(sorted(set(l))), any(x == a + 1 for x in l), all(x <= c for x in l),
+            len([x for x in l if x != a]), len({x: i for i, x in enumerate(l)}), list(zip(l, l[1:]))[0] == (a, b),
+            tuple(x for x in l if x == b) == (b,), [i for i, x in enumerate(l) if x == c][0])
+''',
+    'dict-iteration-and-pop': '''
+import collections
+def f(a, b, c):
+    d = {a: 10}
+    d[b] = 20
+    d[c] = 30
+    ks = list(d.keys())
+    vs = list(d.values())
+    first = ks[0]
+    p = d.pop(a)
+    dd = collections.defaultdict(int)
+    for x in (a, b, c):
+        dd[x] += 1
+    return (len(ks), first, vs[-1], p, len(d), b in d, dd[a], len(dd), d.setdefault(a, 7), sorted(dd.values())[-1])
+''',
+    'tuple-order-and-membership': '''
+def f(a, b, c):
+    t = (a, b)
+    u = (b, c)
+    return (t < u, t == u, max(a, b, c), min((a, b, c)), t + u == (a, b, b, c), t * 2 == (a, b, a, b), (a in t) and (c in u), t.count(b), u.index(c),
+            len(set(t) ^ set(u)) if False else 0)
+''',
+    'branches-and-arithmetic': '''
+def f(a, b, c):
+    if a < b:
+        x = a
+    elif a == b:
+        x = c
+    else:
+        x = b
+    y = 0
+    for i in (a, b, c):
+        if i == x:
+            y += 1
+    return (x, y, a // 2, a % 3, abs(a - b), (a + b) * c, a >> 1, (a << 2) + b, bool(a) and bool(b), not c, a if b else c)
+''',
+}
+
+
+# the same for LABEL arguments (strings of the program = uninterpreted Label constants of the encoder): domain {'p','q','r'}
+LABEL_CASES = {
+    'labels-in-containers': '''
+def f(a, b, c):
+    ops = (a, b, c)
+    d = {a: [b], b: [c]}
+    users = {}
+    for o in ops:
+        users.setdefault(o, []).append('g')
+    s = set(ops)
+    rest = [x for x in ops if x != a]
+    return (ops.count(a), ops.index(c), a in d, len(d), d.get(c) is None, len(s), len(users), len(users[a]), len(rest),
+            tuple(dict.fromkeys(ops)) == ops, 'p' in ops, ops[0] == 'q', frozenset((a, b)) == frozenset((b, c)), (a, b) == (b, a),
+            len(set(ops) - {a}), len([u for u in users if u == c]))
+''',
+    'labels-as-keys-and-removal': '''
+def f(a, b, c):
+    l = [a, b, c, a]
+    l.remove(b)
+    users = {a: ['u1', 'u2']}
+    users[b] = ['u3']
+    if c in users:
+        users[c].append('u4')
+    else:
+        users[c] = []
+    del users[a]
+    return (len(l), l[0] == a, l[-1] == a, b in l, len(users), (c in users), len(users.get(b, [])), sum(len(v) for v in users.values()),
+            len({(a, b): 1, (b, a): 2}), {a: 1}.get(b, 0), [a, b].index(b))
+''',
+}
+
+
+def label_selftest(repo, verbose=True):
+    import ast
+    import itertools
+    import z3
+    from .interp import explore
+    from .values import Sym, LabelSort
+    bad = []
+    DOM = ('p', 'q', 'r')
+    for name, src in LABEL_CASES.items():
+        g = {}
+        exec(compile(src, '<labeltest>', 'exec'), g)
+        native = g['f']
+        it = Interp(repo)
+        from .models import install_loop_rule
+        install_loop_rule(it)
+        m = ModuleV('__labeltest__', repo + '/__labeltest__.py')
+        it.ctx = Ctx([])
+        for _ in it.exec_block(ast.parse(src).body, m.env, m):
+            pass
+        A = [z3.Const(x, LabelSort) for x in 'abc']
+
+        def run(ctx):
+            it.ctx = ctx
+            it.depth = 0
+            consts = [it.label_term(x) for x in DOM]
+            for x in A:
+                ctx.assume(z3.Or([x == k for k in consts]))
+            return it.call(m.env['f'], [Sym(x) for x in A], {})
+        try:
+            paths = explore(run)
+        except Exception as e:
+            bad.append(f'selftest labels {name}: exploration crashed: {e!r}')
+            continue
+        consts = [it.label_term(x) for x in DOM]
+        others = [k for s_, k in it.str_labels.items() if s_ not in DOM]
+        n_unsup = sum(1 for _, o in paths if o[0] == 'unsupported')
+        problems = []
+        for vals in itertools.product(range(3), repeat=3):
+            want = native(*[DOM[v] for v in vals])
+            hit = 0
+            for ctx, out in paths:
+                sol = z3.Solver()
+                sol.add(z3.Distinct(*(consts + others)))
+                sol.add(*[x == consts[v] for x, v in zip(A, vals)])
+                sol.add(*ctx.pc)
+                if sol.check() != z3.sat:
+                    continue
+                hit += 1
+                if out[0] == 'unsupported':
+                    continue
+                if out[0] != 'return':
+                    problems.append(f'{vals}: path ends with {out[0]} but CPython returns {want}')
+                    continue
+                mdl = sol.model()
+
+                def conc(v):
+                    if isinstance(v, Sym) or z3.is_expr(v):
+                        t = mdl.eval(v.t if isinstance(v, Sym) else v, model_completion=True)
+                        return t.as_long() if z3.is_int_value(t) else z3.is_true(t)
+                    return v
+                got = tuple(conc(x) for x in out[1])
+                if got != want:
+                    problems.append(f'{[DOM[v] for v in vals]}: symbolic path gives {got}, CPython gives {want}')
+            if hit == 0:
+                problems.append(f'{[DOM[v] for v in vals]}: NO explored path covers this input (lost path)')
+        if problems:
+            bad.append(f'selftest labels {name}: {len(problems)} problems, first: {problems[0]}')
+        if verbose:
+            print(f'selftest labels {name}: {len(paths)} paths ({n_unsup} outside the subset), 27 inputs, ' + ('agree' if not problems else f'PROBLEMS: {problems[:2]}'))
+    return bad
+
+
+def symbolic_selftest(repo, verbose=True):
+    import ast
+    import itertools
+    import z3
+    from .interp import explore
+    from .values import Sym, VList, VSet, VDict
+    bad = []
+    DOM = range(4)
+
+    def concretise(v, sub):
+        if isinstance(v, Sym):
+            t = z3.simplify(z3.substitute(v.t, *sub))
+            if z3.is_int_value(t):
+                return t.as_long()
+            if z3.is_true(t) or z3.is_false(t):
+                return z3.is_true(t)
+            raise ValueError(f'result term does not evaluate: {t}')
+        if z3.is_expr(v):
+            return concretise(Sym(v), sub)
+        if isinstance(v, tuple):
+            return tuple(concretise(x, sub) for x in v)
+        if isinstance(v, VList):
+            return [concretise(x, sub) for x in v.items]
+        if isinstance(v, VSet):
+            return {concretise(x, sub) for x in v.items}
+        return v
+
+    for name, src in SYM_CASES.items():
+        g = {}
+        exec(compile(src, '<symtest>', 'exec'), g)
+        native = g['f']
+        it = Interp(repo)
+        from .models import install_loop_rule
+        install_loop_rule(it)
+        m = ModuleV('__symtest__', repo + '/__symtest__.py')
+        it.ctx = Ctx([])
+        for _ in it.exec_block(ast.parse(src).body, m.env, m):
+            pass
+        A = [z3.Int(x) for x in 'abc']
+
+        def run(ctx):
+            it.ctx = ctx
+            it.depth = 0
+            for x in A:
+                ctx.assume(z3.And(x >= 0, x <= 3))
+            return it.call(m.env['f'], [Sym(x) for x in A], {})
+        try:
+            paths = explore(run)
+        except Exception as e:
+            bad.append(f'selftest symbolic {name}: exploration crashed: {e!r}')
+            continue
+        n_unsup = sum(1 for _, o in paths if o[0] == 'unsupported')
+        problems = []
+        for vals in itertools.product(DOM, repeat=3):
+            sub = [(x, z3.IntVal(v)) for x, v in zip(A, vals)]
+            want = native(*vals)
+            hit = 0
+            for ctx, out in paths:
+                pc = z3.simplify(z3.substitute(z3.And(ctx.pc) if ctx.pc else z3.BoolVal(True), *sub))
+                if not z3.is_true(pc):
+                    if not z3.is_false(pc):
+                        problems.append(f'{vals}: path condition does not evaluate ({pc})')
+                    continue
+                hit += 1
+                if out[0] == 'unsupported':
+                    continue
+                if out[0] != 'return':
+                    problems.append(f'{vals}: path ends with {out[0]} but CPython returns {want}')
+                    continue
+                try:
+                    got = concretise(out[1], sub)
+                except Exception as e:
+                    problems.append(f'{vals}: {e}')
+                    continue
+                if got != want or [type(x) for x in got] != [type(x) for x in want]:
+                    problems.append(f'{vals}: symbolic path gives {got}, CPython gives {want}')
+            if hit == 0:
+                problems.append(f'{vals}: NO explored path covers this input (lost path)')
+        if problems:
+            bad.append(f'selftest symbolic {name}: {len(problems)} problems, first: {problems[0]}')
+        if verbose:
+            print(f'selftest symbolic {name}: {len(paths)} paths ({n_unsup} outside the subset), 64 inputs, ' + ('agree' if not problems else f'PROBLEMS: {problems[:2]}'))
+    return bad
+
+
 def main(repo, verbose=True):
     """returns the list of disagreements (empty = the interpreter agrees with CPython on every script)"""
     bad = []
@@ -441,6 +717,8 @@ def main(repo, verbose=True):
         if verbose:
             print(msg)
     bad.extend(frame_selftest(repo, verbose))
+    bad.extend(symbolic_selftest(repo, verbose))
+    bad.extend(label_selftest(repo, verbose))
     return bad
 
 
@@ -449,5 +727,7 @@ if __name__ == '__main__':
     env.setup_import_paths()
     sys.setrecursionlimit(20000)
     n = main(env.REPO)
+    for msg in n:
+        print('  FAILED:', msg[:1500])
     print('SELFTEST', 'OK' if not n else f'FAILED ({len(n)})')
     sys.exit(0 if not n else 3)
